@@ -51,6 +51,6 @@ func run(cfg config) {
 		Version: cfg.Version,
 	})
 	if err := r.Run(); err != nil {
-		log.Print(err.Error())
+		log.Fatal(err.Error())
 	}
 }
